@@ -15,7 +15,7 @@ use prio::dp::{PureDpBudget, Rational, ZCdpBudget};
 use prio::vdaf::poplar1::Poplar1;
 use prio::vdaf::prio2::Prio2;
 use prio::vdaf::prio3::Prio3;
-use prio::vdaf::Client;
+use prio::vdaf::{Client, VerifyTransition};
 use serde::{Deserialize, Serialize};
 use serde_json::{json, Value};
 
@@ -153,7 +153,7 @@ fn gen(seed: u64) -> Plan16 {
             if inst.n > 4 {
                 inst.n = 2 + rng.below(3) as u8;
             }
-            let what = *rng.pick(&["agg_id", "wrong_role", "share_count", "cross_instance", "cross_instance"]);
+            let what = *rng.pick(&["agg_id", "wrong_role", "share_count", "cross_instance", "cross_instance", "late", "late"]);
             let other = if what == "cross_instance" && inst.is_prio3() && rng.chance(1, 3) {
                 // another CLASS whose share objects have the same Rust type (same field and seed size)
                 let fam: &[&str] = if matches!(inst.class.as_str(), "count" | "sum" | "sumvec64") { &["count", "sum", "sumvec64"] } else { &["avg", "sumvec", "hist", "multihot", "l1"] };
@@ -368,6 +368,183 @@ impl<'a, 'c, 'cc> Visitor for AggVis<'a, 'c, 'cc> {
                     }
                 }
             }
+            "late" => {
+                // misuse AFTER verify_init: messages of another report / an earlier round handed to
+                // verify_next, mixed-round verifier shares, wrong numbers of aggregate shares and
+                // extreme measurement counts handed to unshard, output shares aggregated under a
+                // parameter with another number of candidates
+                let mut n2 = n16;
+                for b in n2.iter_mut() {
+                    *b ^= 0xff;
+                }
+                let meas2 = {
+                    let mut r = Rng::new(*id ^ 0x1a7e);
+                    let mut m = model::gen_meas(inst, &mut r);
+                    if inst.class == "poplar1" {
+                        // keep the second input on the queried prefix so that both reports are accepted
+                        let k = 1.max(meas.len() / 2);
+                        m[..k].clone_from_slice(&meas[..k]);
+                    }
+                    m
+                };
+                let second = match ad.shard(vdaf, &c.0, &meas2, &n2, &rand.0, false) {
+                    Ok((pb2, ib2)) => {
+                        let p2 = V::PublicShare::get_decoded_with_param(vdaf, &pb2).map_err(|e| e.to_string())?;
+                        let s2: Vec<V::InputShare> = (0..n).map(|j| V::InputShare::get_decoded_with_param(&(vdaf, j), &ib2[j])).collect::<Result<_, _>>().map_err(|e| e.to_string())?;
+                        Some((p2, s2))
+                    }
+                    Err(_) => None,
+                };
+                macro_rules! lib {
+                    ($label:expr, $e:expr) => {
+                        match guard($label, || $e) {
+                            Ok(r) => r,
+                            Err(v) => {
+                                ctx.fail(v);
+                                return Ok(());
+                            }
+                        }
+                    };
+                }
+                // round 0 of both reports
+                let mut states: Vec<V::VerifyState> = Vec::new();
+                let mut vshares: Vec<V::VerifierShare> = Vec::new();
+                for j in 0..n {
+                    let (st, sh) = lib!("verify_init", vdaf.verify_init(&key, &c.0, j, &ap, &n16, &public, &shares[j])).map_err(|e| format!("honest verify_init failed: {e}"))?;
+                    states.push(st);
+                    vshares.push(sh);
+                }
+                let mut other_msg: Option<V::VerifierMessage> = None;
+                if let Some((p2, s2)) = &second {
+                    let mut vs2 = Vec::new();
+                    for j in 0..n {
+                        match lib!("verify_init", vdaf.verify_init(&key, &c.0, j, &ap, &n2, p2, &s2[j])) {
+                            Ok((_, sh)) => vs2.push(sh),
+                            Err(e) => return Err(format!("honest verify_init (second report) failed: {e}")),
+                        }
+                    }
+                    other_msg = lib!("verifier_shares_to_message", vdaf.verifier_shares_to_message(&c.0, &ap, vs2)).ok();
+                }
+                // another report's message handed to this report's states: error or a (rejecting /
+                // accepting) transition, never a panic
+                if let Some(m2) = &other_msg {
+                    for st in &states {
+                        match guard("verify_next(message of another report)", || vdaf.verify_next(&c.0, st.clone(), m2.clone())) {
+                            Err(v) => {
+                                ctx.fail(v);
+                                return Ok(());
+                            }
+                            Ok(Ok(_)) => ctx.counters.inc("c16.late.foreign_message_processed"),
+                            Ok(Err(_)) => ctx.counters.inc("c16.refused"),
+                        }
+                    }
+                }
+                // honest continuation, remembering each round's message and shares
+                let mut outs: Vec<V::OutputShare> = Vec::new();
+                let mut first_round: Option<(V::VerifierMessage, Vec<V::VerifierShare>)> = None;
+                let mut round = 0;
+                loop {
+                    let msg = lib!("verifier_shares_to_message", vdaf.verifier_shares_to_message(&c.0, &ap, vshares.clone())).map_err(|e| format!("honest verifier_shares_to_message failed: {e}"))?;
+                    if round == 0 {
+                        first_round = Some((msg.clone(), vshares.clone()));
+                    } else if let Some((m0, vs0)) = &first_round {
+                        // an EARLIER round's message / shares replayed into this round
+                        for st in &states {
+                            match guard("verify_next(message of an earlier round)", || vdaf.verify_next(&c.0, st.clone(), m0.clone())) {
+                                Err(v) => {
+                                    ctx.fail(v);
+                                    return Ok(());
+                                }
+                                Ok(Ok(VerifyTransition::Finish(_))) => ctx.fail(Violation::new("C16.accepts", format!("late|stale_message|{}", inst.class), "verify_next released an output share for the previous round's message".to_string())),
+                                Ok(_) => ctx.counters.inc("c16.refused"),
+                            }
+                        }
+                        let mut mixed = vshares.clone();
+                        mixed[0] = vs0[0].clone();
+                        match guard("verifier_shares_to_message(shares of two rounds)", || vdaf.verifier_shares_to_message(&c.0, &ap, mixed)) {
+                            Err(v) => {
+                                ctx.fail(v);
+                                return Ok(());
+                            }
+                            Ok(Ok(_)) => ctx.counters.inc("c16.late.mixed_rounds_processed"),
+                            Ok(Err(_)) => ctx.counters.inc("c16.refused"),
+                        }
+                    }
+                    let mut next_states = Vec::new();
+                    let mut next_shares = Vec::new();
+                    for st in states.drain(..) {
+                        match lib!("verify_next", vdaf.verify_next(&c.0, st, msg.clone())).map_err(|e| format!("honest verify_next failed: {e}"))? {
+                            VerifyTransition::Continue(s2, sh2) => {
+                                next_states.push(s2);
+                                next_shares.push(sh2);
+                            }
+                            VerifyTransition::Finish(o) => outs.push(o),
+                        }
+                    }
+                    if next_states.is_empty() {
+                        break;
+                    }
+                    states = next_states;
+                    vshares = next_shares;
+                    round += 1;
+                    if round > 8 {
+                        return Err("more than 8 rounds".into());
+                    }
+                }
+                if outs.len() != n {
+                    return Err(format!("{} output shares for {n} aggregators", outs.len()));
+                }
+                // aggregate shares, then unshard with wrong counts / extreme measurement counts
+                let mut aggs: Vec<V::AggregateShare> = Vec::new();
+                for o in &outs {
+                    aggs.push(lib!("aggregate", vdaf.aggregate(&ap, [o.clone()])).map_err(|e| format!("honest aggregate failed: {e}"))?);
+                }
+                let counts = [0usize, n - 1, n + 1, 255, 256 + n];
+                for (i, k) in counts.iter().enumerate() {
+                    for nm in [0usize, 1, 2, usize::MAX] {
+                        if i >= 3 && nm != 1 {
+                            continue;
+                        }
+                        let list: Vec<V::AggregateShare> = aggs.iter().cloned().cycle().take(*k).collect();
+                        match guard("unshard(wrong number of aggregate shares / extreme count)", || vdaf.unshard(&ap, list, nm)) {
+                            Err(v) => {
+                                ctx.fail(v);
+                                return Ok(());
+                            }
+                            Ok(Ok(_)) => ctx.counters.inc("c16.late.unshard_processed"),
+                            Ok(Err(_)) => ctx.counters.inc("c16.refused"),
+                        }
+                    }
+                }
+                for nm in [0usize, usize::MAX, 1 << 32, (1 << 53) + 1] {
+                    match guard("unshard(extreme measurement count)", || vdaf.unshard(&ap, aggs.clone(), nm)) {
+                        Err(v) => {
+                            ctx.fail(v);
+                            return Ok(());
+                        }
+                        Ok(_) => ctx.counters.inc("c16.late.unshard_processed"),
+                    }
+                }
+                // Poplar1: the same shares under a parameter with another number of candidates
+                if inst.class == "poplar1" && !apspec.is_empty() {
+                    let mut other_pref: Vec<char> = apspec[0].chars().collect();
+                    let last = other_pref.len() - 1;
+                    other_pref[last] = if other_pref[last] == '0' { '1' } else { '0' };
+                    let mut spec2 = vec![apspec[0].clone(), other_pref.into_iter().collect::<String>()];
+                    spec2.sort();
+                    let ap2 = ad.agg_param(&spec2)?;
+                    match guard("aggregate(parameter with another number of candidates)", || vdaf.aggregate(&ap2, outs.clone())) {
+                        Err(v) => ctx.fail(v),
+                        Ok(Ok(_)) => ctx.fail(Violation::new("C16.accepts", "late|aggregate_len|poplar1".to_string(), "aggregate accepted 1-candidate output shares under a 2-candidate parameter".to_string())),
+                        Ok(Err(_)) => ctx.counters.inc("c16.refused"),
+                    }
+                    match guard("unshard(parameter with another number of candidates)", || vdaf.unshard(&ap2, aggs.clone(), 1)) {
+                        Err(v) => ctx.fail(v),
+                        Ok(Ok(_)) => ctx.fail(Violation::new("C16.accepts", "late|unshard_len|poplar1".to_string(), "unshard accepted 1-candidate aggregate shares under a 2-candidate parameter".to_string())),
+                        Ok(Err(_)) => ctx.counters.inc("c16.refused"),
+                    }
+                }
+            }
             _ => {
                 // objects of a differently parameterised instance of the same Rust type
                 let Some(o) = other else { return Ok(()) };
@@ -475,6 +652,32 @@ fn exec(p: &Plan16, ctx: &mut Ctx, counters2: &mut Counters) -> Result<(), Strin
                     }
                     let v: Poplar1<prio::vdaf::xof::XofTurboShake128, 32> = Poplar1::new_turboshake128(len_u);
                     let input = prio::idpf::IdpfInput::from_bools(&vec![true; len_u]);
+                    if len_u == 0 {
+                        // the constructor is infallible by signature: every Result-returning operation
+                        // of the zero-bit instance must answer with an error (or a value), not panic
+                        use prio::codec::ParameterizedDecode as PD;
+                        use prio::vdaf::poplar1::{Poplar1AggregationParam, Poplar1FieldVec, Poplar1InputShare, Poplar1PublicShare, Poplar1VerifierState};
+                        use prio::vdaf::{Aggregator, Collector};
+                        let ap = Poplar1AggregationParam::try_from_prefixes(vec![prio::idpf::IdpfInput::from_bools(&[*seed & 1 == 1])]).map_err(|e| e.to_string())?;
+                        let bytes: Vec<u8> = (0..400).map(|i| (seed.wrapping_mul(i as u64 + 1) >> 7) as u8 & 0x3f).collect();
+                        let ops: Vec<(&str, Box<dyn Fn() -> bool + '_>)> = vec![
+                            ("Poplar1(0 bits)::aggregate", Box::new(|| v.aggregate(&ap, std::iter::empty()).is_ok())),
+                            ("Poplar1(0 bits)::unshard", Box::new(|| v.unshard(&ap, std::iter::empty(), 0).is_ok())),
+                            ("Poplar1InputShare::decode(0-bit instance)", Box::new(|| <Poplar1InputShare<32> as PD<_>>::get_decoded_with_param(&(&v, 0usize), &bytes).is_ok())),
+                            ("Poplar1PublicShare::decode(0-bit instance)", Box::new(|| <Poplar1PublicShare as PD<_>>::get_decoded_with_param(&v, &bytes).is_ok())),
+                            ("Poplar1FieldVec::decode(0-bit instance)", Box::new(|| <Poplar1FieldVec as PD<_>>::get_decoded_with_param(&(&v, &ap), &bytes[..8]).is_ok())),
+                            ("Poplar1VerifierState::decode(0-bit instance)", Box::new(|| <Poplar1VerifierState as PD<_>>::get_decoded_with_param(&(&v, 1usize), &bytes).is_ok())),
+                        ];
+                        for (label, op) in ops {
+                            match guard(label, || op()) {
+                                Err(viol) => {
+                                    ctx.fail(viol);
+                                    return Ok(());
+                                }
+                                Ok(_) => ctx.counters.inc("c16.zero_bit_instance_op_done"),
+                            }
+                        }
+                    }
                     guard("Poplar1::shard", || v.shard(b"", &input, &[0u8; 16]).map(|_| ()).map_err(|e| e.to_string()))
                 }
                 _ => return Ok(()),
